@@ -475,8 +475,8 @@ pub fn run(ctx: &Ctx) -> i32 {
     }
     let mut rep = Report::new();
     exhaustive(ctx, &mut rep);
-    run_cases(ctx, &mut rep, "structured", ctx.cases(150_000, 20_000_000), case_structured);
-    run_cases(ctx, &mut rep, "raw", ctx.cases(50_000, 5_000_000), case_raw);
+    run_cases(ctx, &mut rep, "structured", ctx.cases(600_000, 50_000_000), case_structured);
+    run_cases(ctx, &mut rep, "raw", ctx.cases(200_000, 10_000_000), case_raw);
     // vacuity: every message type must have been accepted (round-trip exercised)
     let mut missing = vec![];
     for ty in ALL_TYPES {
